@@ -607,7 +607,7 @@ class simulation_model():
         # snap the time to the simulation grid: 0.8-0.1 is 0.7000000000000001 in floating point, which would be a
         # different memo key than 0.7 and make the stocks take an extra integration step
         if isinstance(arg, (int, float)) and self.dt:
-            arg = round(self.starttime + round((arg - self.starttime) / self.dt) * self.dt, 9)
+            arg = round(self.starttime + round((arg - self.starttime) / self.dt) * self.dt, 12)
             
         if not equation in self.equations.keys():
 
